@@ -137,6 +137,21 @@ func entryPoints() []entryPoint {
 			return c, nil
 		}},
 	}
+	eps = append(eps,
+		entryPoint{"encoding.PopulateStructFromCBOR(Plain)", "cbor", func(b []byte) (any, error) {
+			d := &shapes.Plain{}
+			if err := encoding.PopulateStructFromCBOR(extprof.DM, b, d); err != nil {
+				return nil, err
+			}
+			return d, nil
+		}},
+		entryPoint{"encoding.PopulateStructFromJSON(Plain)", "json", func(b []byte) (any, error) {
+			d := &shapes.Plain{}
+			if err := encoding.PopulateStructFromJSON(b, d); err != nil {
+				return nil, err
+			}
+			return d, nil
+		}})
 	for _, sn := range shapes.Names {
 		sn := sn
 		eps = append(eps,
